@@ -115,6 +115,8 @@ inductive Label where
   | timerArm (t : Nat) (due : Nat)   -- executor: the timer task went to sleep until `due`
   | timerEnd (t : Nat)               -- executor: the timer task ended
   | tickBegin (t m : Nat)
+  | extPush (b : Nat)              -- a holder outside the client model (the parent) force-sends broadcast `b`
+  | extBegin (b m : Nat)           -- the loop reaches broadcast `b` at the head: it is message `m` from now on
   | time (t : Nat)
   | cancel
   | taskPanic
@@ -648,6 +650,19 @@ def stepTickBegin (s : AState) (t m : Nat) : Option AState :=
     else none
   | _, _ => none
 
+/-- `Sender::force_send` by a holder that is not a client of the trace (a parent's `send_to_children`):
+    forcing path, refused (and ignored by the caller) iff the receiver is gone. -/
+def stepExtPush (s : AState) (b : Nat) : Option AState :=
+  if s.chan.rx then some (s.push (.ext b) .forcing .stale) else some s
+
+def stepExtBegin (s : AState) (b m : Nat) : Option AState :=
+  match s.phase, s.chan.queue with
+  | .idle, { pl := .ext b', tok } :: rest =>
+    if b == b' then
+      some { s with chan := { s.chan with queue := { pl := .msg m none, tok } :: rest } }
+    else none
+  | _, _ => none
+
 /-- the virtual clock may not jump past a pending deadline of this actor -/
 def timeOk (s : AState) (t : Nat) : Bool :=
   (match s.busy with
@@ -762,6 +777,8 @@ def step (w : Wiring) (s : AState) : Label → Option AState
   | .timerArm t due => s.stepTimerArm w t due
   | .timerEnd t => s.stepTimerEnd w t
   | .tickBegin t m => s.stepTickBegin t m
+  | .extPush b => s.stepExtPush b
+  | .extBegin b m => s.stepExtBegin b m
   | .time t => s.stepTime t
   | .cancel => s.stepCancel
   | .taskPanic => s.stepTaskPanic
